@@ -286,7 +286,7 @@ def rule_i4(F):
 def rule_i6(F):
     """Obligation behind the reviewed `get_scope_of(..).unwrap()` sites: the scope and the identifier of each lookup
     belong to the same registered item (so the lookup cannot fail after the earlier passes)."""
-    r = RuleResult("C18.I6", "scope lookups during registration use the scope in which the looked-up item was declared", floor=3)
+    r = RuleResult("C18.I6", "scope lookups during registration use the scope in which the looked-up item was declared", floor=2)
     seen_fns = set()
     # helpers that only the use-path walker calls belong to it
     callers = {}
@@ -315,6 +315,21 @@ def rule_i6(F):
             scope_param = sk.startswith("arg") and sk[3:].isdigit() and "ScopeRef" in b.mir["locals"][int(sk[3:])]["ty"]
             module_case = scope_param and ik.endswith("ident") and ".name." not in ik
             type_case = sk.endswith(".name.scope") and ik.endswith(".name.ident") and sk[: -len(".scope")] == ik[: -len(".ident")]
+            if not (module_case or type_case) and scope_param and re.match(r"^arg\d+$", ik):
+                # a forwarding helper (`fn module_scope(&self, scope, ident)`): decided where it is called
+                si_, ii_ = int(sk[3:]), int(ik[3:])
+                sites_ = [(cb_, ct_) for cb_ in F.bodies_in(["src/runtime/mod.rs"]) if cb_.mir for _, ct_ in mir.calls(cb_) if mir.callee(ct_) == fn]
+                verdicts = []
+                for cb_, ct_ in sites_:
+                    cd_ = mir.Defs(cb_)
+                    a_s, a_i = ct_["args"][si_ - 1], ct_["args"][ii_ - 1]
+                    sk2 = mir.origin_key(cb_, cd_, a_s[1]) if mir.is_place_op(a_s) else "?"
+                    ik2 = mir.origin_key(cb_, cd_, a_i[1]) if mir.is_place_op(a_i) else "?"
+                    sp2 = sk2.startswith("arg") and sk2[3:].isdigit() and "ScopeRef" in cb_.mir["locals"][int(sk2[3:])]["ty"]
+                    verdicts.append((sp2 and ik2.endswith("ident") and ".name." not in ik2) or
+                                    (sk2.endswith(".name.scope") and ik2.endswith(".name.ident") and sk2[: -len(".scope")] == ik2[: -len(".ident")]))
+                if sites_ and all(verdicts):
+                    module_case = True
             if not (module_case or type_case):
                 r.bad(fn, "lookup #%d" % n, relfile(b.file), t["line"],
                       "get_scope_of(%s, %s): the scope and the identifier do not belong to the same item (a module is looked up in the scope being walked, a type in the scope where it was registered): the lookup fails - and the following unwrap panics - for an impl block or module that is not next to its type" % (sk, ik))
